@@ -68,6 +68,23 @@ def judge(mode, maxd, got):
     return bad
 
 
+def judge_threads(got):
+    if got is None:
+        return ["concurrent-threads scenario did not complete"]
+    bad = []
+    for r in got["rounds"]:
+        what = "first start-up" if r["round"] == 0 else "tracker SIGKILLed"
+        if r["launched"] != 1:
+            bad.append(f"round {r['round']} ({what}): {r['launched']} trackers were started by concurrent tracked operations instead of exactly 1")
+        if r["errors"]:
+            bad.append(f"round {r['round']} ({what}): a tracked operation failed: {r['errors'][0]}")
+        if r["missing"]:
+            bad.append(f"round {r['round']} ({what}): files registered by this living process were destroyed: {r['missing']}")
+        if r["alive"] != 1 or not r["current_alive"]:
+            bad.append(f"round {r['round']} ({what}): {r['alive']} trackers alive afterwards (current alive: {r['current_alive']})")
+    return bad
+
+
 def run(ctx):
     pr = vlib.prove(ctx, PROP_FILE, ["Lifecycle", "Tracker"])
     plans = [("normal", "loky", 2, "x"), ("signals", "loky", 1, "x"), ("sigkill", "loky", 2, "leaffirst"),
@@ -90,6 +107,12 @@ def run(ctx):
     if storm is None or storm["died_of_signals"] or storm["distinct_trackers"] < rounds:
         fails.append((("storm", rounds), ["a tracker died of SIGINT/SIGTERM sent while it was starting" if storm and storm["died_of_signals"]
                                           else "signal storm scenario did not complete"], storm, sres["stderr"][-800:]))
+    trounds, tthreads = (6, 4) if ctx.tier == "quick" else (25, 6)
+    tres = runner.run_script(tree_scen.THREADS, vlib.REPO, timeout=300, args=(trounds, tthreads))
+    threads = runner.last_json(tres)
+    tbad = judge_threads(threads)
+    if tbad:
+        fails.append((("threads", trounds, tthreads), tbad, threads, tres["stderr"][-800:]))
     if fails:
         plan, bad, got, err = fails[0]
         rp = vlib.write_replay(ctx, "real", {"kind": "tracker behaviour in a real process tree deviates", "plan": plan, "why": bad,
@@ -111,8 +134,8 @@ def run(ctx):
                 "SIGKILL of every member in leaf-first or root-first order / SIGINT+SIGTERM sent to the tracker / tracker killed "
                 "twice followed by tracked operations; observed: tracker identity and liveness, existence of the registered "
                 "resources before and after each death, the relaunch warning",
-        "signal_storm": storm,
-        "traces_validated_against_impl": len(plans) + 1, "samples": results[:3],
+        "signal_storm": storm, "concurrent_threads": {"rounds": trounds, "threads": tthreads, "ok": not tbad},
+        "traces_validated_against_impl": len(plans) + 2, "samples": results[:3],
     }
     return vlib.finish(ctx, ASSUME)
 
@@ -123,6 +146,11 @@ def replay(ctx, path):
         storm = runner.last_json(runner.run_script(tree_scen.STORM, vlib.REPO, timeout=200, args=(r["plan"][1],)))
         print(storm)
         return 1 if (storm is None or storm["died_of_signals"]) else 0
+    if r["plan"][0] == "threads":
+        got = runner.last_json(runner.run_script(tree_scen.THREADS, vlib.REPO, timeout=300, args=(r["plan"][1], r["plan"][2])))
+        bad = judge_threads(got)
+        print(bad or "ok")
+        return 1 if bad else 0
     got, res = run_tree(*r["plan"])
     bad = judge(r["plan"][0], r["plan"][2], got)
     print(bad or "ok")
